@@ -97,10 +97,12 @@ pub fn gen_payload_pdu(t: &mut Tape, v: u8) -> WirePdu {
             WirePdu::Ipv6 { v, flags, plen, maxlen, addr, asn: gen_u32(t) }
         }
         2 => {
-            let n = match t.choose(12) {
+            let n = match t.choose(14) {
                 0 => 0,
                 1 => 70_000,
                 2 => 1,
+                // sizes around the chunk sizes readers like to use
+                3 => *t.pick(&[255usize, 256, 257, 1023, 1024, 1025, 2048, 4096, 65535, 65536]),
                 _ => t.choose(201) as usize,
             };
             let mut ski = [0u8; 20];
@@ -112,10 +114,11 @@ pub fn gen_payload_pdu(t: &mut Tape, v: u8) -> WirePdu {
             WirePdu::RouterKey { v, flags, ski, asn: gen_u32(t), spki }
         }
         _ => {
-            let n = match t.choose(16) {
+            let n = match t.choose(18) {
                 0 => 0,
                 1 => pdu::ProviderAsns::MAX_COUNT,
                 2 => 1,
+                3 => *t.pick(&[63usize, 64, 255, 256, 257, 512, 1024, 16379]),
                 _ => t.choose(51) as usize,
             };
             let base = gen_u32(t);
